@@ -27,6 +27,7 @@ import (
 	"sync"
 	"syscall"
 	"time"
+	"unicode/utf8"
 )
 
 var verifDir = "/verif"
@@ -324,6 +325,9 @@ func journalToReplay(journal, property string) ([]byte, error) {
 		"use_number": strings.Contains(parts[1], "usenumber=true"),
 		"funcs":      strings.Contains(parts[1], "funcs=true"),
 		"accessor":   strings.Contains(parts[1], "accessor=true"),
+	}
+	if !utf8.ValidString(parts[2]) {
+		c["path_raw"] = []byte(parts[2])
 	}
 	return json.MarshalIndent(c, "", " ")
 }
